@@ -65,6 +65,48 @@ def sortGroups (gs : List (BitVec 64 × List Entry)) := gs.foldr insertGroup []
 def specGroups (es : List Entry) (order : List (BitVec 64)) : List (BitVec 64 × List Entry) :=
   order.map fun id => (id, es.filter fun e => e.id == id)
 
+/-! ### fast iteration (driver only)
+
+`mapIterate` of the proved model re-parses the `ByteArrays` header for every bucket on a `List` (quadratic
+for 2^12 buckets).  `iterateFast` reads the pointer table once from an `Array`; it only handles the
+well-formed shape (enough items, pointer width 1..8, monotone pointers inside the data) and otherwise
+defers to the model function.  For maps with at most 2^5 buckets both are computed and must agree
+(`none` = they did not: the driver reports `bad-op`). -/
+
+def leAt (a : Array UInt8) (pos n : Nat) : Nat :=
+  (List.range n).foldr (fun j acc => (a.getD (pos + j) 0).toNat + 256 * acc) 0
+
+def iterateFast (m : MapView) : Option (Option (List (BitVec 64 × List Entry))) :=
+  let slow : Unit → Option (List (BitVec 64 × List Entry)) := fun _ => mapIterate m
+  let fast : Option (Option (List (BitVec 64 × List Entry))) :=
+    match baReadLayout m.buckets with
+    | none => none
+    | some l =>
+      let a := m.buckets.toArray
+      let n := 2 ^ m.b.toNat
+      let off := baLayoutLength + l.offsetBytes * (l.items + 1)
+      if l.items < n || l.offsetBytes == 0 || l.offsetBytes > 8 || a.size < off then none
+      else
+        let ptrs := (List.range (n + 1)).map fun k => leAt a (baLayoutLength + l.offsetBytes * k) l.offsetBytes
+        let okPtrs := (ptrs.zip (ptrs.drop 1)).all (fun (p, q) => p ≤ q) && off + ptrs.getLastD 0 ≤ a.size
+        if !okPtrs then none
+        else
+          let res := (List.range n).foldr (fun k (acc : Option (List (BitVec 64 × List Entry))) =>
+            match acc with
+            | none => none
+            | some rest =>
+              let items := (a.extract (off + ptrs.getD k 0) (off + ptrs.getD (k + 1) 0)).toList
+              match scanBucket (items.length + 1) items (BitVec.ofNat 64 k) m.b m.t with
+              | none => none
+              | some es => some (groupById (sortById es) ++ rest)) (some [])
+          some res
+  match fast with
+  | none => some (slow ())
+  | some r =>
+    if m.b.toNat ≤ 5 then
+      (if r == slow () then some r else none)
+    else some r
+
 def judge (impl model spec clause : String) : Verdict :=
   if impl == spec then (if impl == model then .ok else .diff model) else .propfail clause
 
@@ -242,9 +284,9 @@ def step (st : St) (op impl : String) : St × Verdict :=
       (st, judge impl m spec "map_find_first_with_tag")
     | _, _, _ => (st, .bad)
   | ["iter"] =>
-    match st.view with
-    | some mv =>
-      let m := optStr ((mapIterate mv).map renderGroups)
+    match st.view.bind fun mv => (iterateFast mv).map fun r => (mv, r) with
+    | some (mv, it) =>
+      let m := optStr (it.map renderGroups)
       -- spec: visiting order = bucket, then id; every distinct id once with all entries written under it
       let ids := (st.entries.map (·.id)).eraseDups
       let order := (sortGroups (ids.map fun id => (id, ([] : List Entry)))).map (·.1)
@@ -253,9 +295,9 @@ def step (st : St) (op impl : String) : St × Verdict :=
       (st, judge impl m spec "map_iterate")
     | none => (st, .bad)
   | ["each", _] =>
-    match st.view with
-    | some mv =>
-      let m := optStr ((mapIterate mv).map fun gs => renderGroups (sortGroups gs))
+    match st.view.bind fun mv => (iterateFast mv).map fun r => (mv, r) with
+    | some (mv, it) =>
+      let m := optStr (it.map fun gs => renderGroups (sortGroups gs))
       let ids := (st.entries.map (·.id)).eraseDups
       let order := (sortGroups (ids.map fun id => (id, ([] : List Entry)))).map (·.1)
       let spec := renderGroups (specGroups st.entries order)
